@@ -55,6 +55,15 @@ def run(R, ctx, pid):
             if not os.path.exists(patch):
                 patch = os.path.join(seed_root, d, "patch.diff")
             muts.append({"name": "seeded:" + d, "patch": patch, "expect": None, "caught_by": mj.get("caught_by")})
+    # behaviour-preserving refactorings kept as fixtures: the checker must stay SILENT on them (false-alarm self-test)
+    benign_root = os.path.join(VERIF, "benign")
+    if os.path.isdir(benign_root):
+        for d in sorted(os.listdir(benign_root)):
+            if not d.startswith(pid):
+                continue
+            for f in sorted(os.listdir(os.path.join(benign_root, d))):
+                if f.endswith(".diff"):
+                    muts.append({"name": "benign:%s/%s" % (d, f), "patch": os.path.join(benign_root, d, f), "expect": None, "benign": True})
     baseline = set(o["rule"] + "|" + o["key"] for o in R.obligations if not o["ok"])
     results = []
     scratch = os.path.join(facts.WORK, "scratch", "%s-%d" % (pid, os.getpid()))
@@ -88,6 +97,11 @@ def run(R, ctx, pid):
                 results.append(res)
                 continue
             new = [v for v in viol if v not in baseline]
+            if mu.get("benign"):
+                res["status"] = "silent" if not new else "FALSE-ALARM"
+                res["fired"] = new[:3]
+                results.append(res)
+                continue
             exp = mu.get("expect")
             hit = [v for v in new if exp is None or exp in v]
             res["status"] = "detected" if hit else "MISSED"
@@ -99,9 +113,14 @@ def run(R, ctx, pid):
     det = sum(1 for r in results if r["status"] == "detected")
     missed = [r for r in results if r["status"] == "MISSED"]
     R.meta["selftest_known_misses"] = known_miss
-    R.meta["selftest"] = {"mutants": len(results), "detected": det, "missed": len(missed), "skipped": len(results) - det - len(missed),
+    R.meta["selftest"] = {"mutants": len(results), "detected": det, "missed": len(missed), "skipped": sum(1 for r in results if str(r["status"]).startswith("skipped")),
                           "wall_s": round(time.time() - t0, 1), "results": results}
     for r in results:
         R.info("selftest %s: %s %s" % (r["mutant"], r["status"], r.get("fired", "")))
+    alarms = [r for r in results if r["status"] == "FALSE-ALARM"]
+    R.meta["selftest"]["benign_silent"] = sum(1 for r in results if r["status"] == "silent")
+    R.meta["selftest"]["benign_false_alarms"] = len(alarms)
+    if alarms:
+        R.fatal = "self-test: the checker raised a false alarm on behaviour-preserving fixture(s) %s: %s" % ([r["mutant"] for r in alarms], alarms[0].get("fired"))
     if missed:
         R.fatal = "self-test: the checker did not fire on seeded fault(s) %s -- the detector is not live, verdict withheld" % [r["mutant"] for r in missed]
